@@ -307,10 +307,10 @@ def _run_batch(exe, todo, timeout):
         rc = "timeout"
     res = []
     for l in out.split("\n"):
-        if not l.strip():
+        if not l.startswith("@@RES "):
             continue
         try:
-            res.append(json.loads(l))
+            res.append(json.loads(l[6:]))
         except ValueError:
             pass
     return res, rc
